@@ -128,15 +128,17 @@ theorem beBytes_get0 (n X : Nat) : (beBytes (n + 1) X)[0]? = some (X / 256 ^ n %
 theorem beBytes_get1 (n X : Nat) : (beBytes (n + 2) X)[1]? = some (X / 256 ^ n % 256) := rfl
 
 /-- the EXT_FDT octets `push_fdt` appends -/
-def fdtBytes (version id : Nat) : List Nat := beBytes 4 ((192 <<< 24) ||| (version <<< 20) ||| id)
+def fdtBytes (version id : Nat) : List Nat := beBytes 4 ((192 <<< 24) ||| (version <<< 20) ||| (id % 2^20))
 /-- the EXT_CENC octets `push_cenc` appends -/
 def cencBytes (cenc : Nat) : List Nat := beBytes 4 (193 * 2^24 + cenc * 2^16)
 /-- the EXT_TIME octets `push_sct` appends for NTP timestamp `ntp` -/
 def sctBytes (ntp : Nat) : List Nat := beBytes 4 (2 * 2^24 + 3 * 2^16 + 2^15 + 2^14) ++ beBytes 8 ntp
 
-theorem fdtBytes_ext (version id : Nat) (hv : version < 16) (hid : id < 2^20) : ExtBytes (fdtBytes version id) 192 1 := by
+theorem fdtBytes_ext (version id : Nat) (hv : version < 16) : ExtBytes (fdtBytes version id) 192 1 := by
+  have hid : id % 2^20 < 2^20 := Nat.mod_lt _ (by decide)
   unfold fdtBytes
-  rw [fdt_word version id hv hid]
+  rw [fdt_word version _ hv hid]
+  generalize id % 2^20 = id at hid
   refine ⟨wf_beBytes _ _, by rw [length_beBytes], by omega, by omega, ?_, ?_⟩
   · rw [beBytes_get0]; simp only [Nat.reducePow] at hid ⊢; congr 1; omega
   · rw [if_neg (by omega)]; omega
@@ -189,7 +191,7 @@ theorem specOfBuild_hdrLen_le (psi cci tsi toi cp : Nat) (co cs : Bool) (hcci : 
 theorem newAlcPkt_layout (oti : Oti) (cci tsi : Nat) (pkt : Pkt) (rfc3926 : Bool) (nowUs ntp id : Nat)
     (wfti : List Nat) (nfti : Nat) (o' : Oti) (wpid : List Nat)
     (hcp : oti.fecId < 256) (hcci : cci < 2^128) (htsi : tsi < 2^48) (htoi : pkt.toi < 2^112)
-    (hfdt : pkt.toi = 0 → pkt.fdtId = some id ∧ id < 2^20)
+    (hfdt : pkt.toi = 0 → pkt.fdtId = some id)
     (hcenc : pkt.cenc < 256)
     (hntp : pkt.senderCurrentTime = true → systemTimeToNtp nowUs = .ok ntp)
     (hfti : (pkt.toi = 0 ∨ oti.inbandFti = true) → FtiOk oti pkt.transferLength wfti nfti o') (hn : nfti ≤ 4)
@@ -203,7 +205,7 @@ theorem newAlcPkt_layout (oti : Oti) (cci tsi : Nat) (pkt : Pkt) (rfc3926 : Bool
   have hex0 : f0.exts = [] := by rw [← hf0]; rfl
   -- step 1: EXT_FDT
   obtain ⟨s1, v1, l1⟩ := stepOpt (pkt.toi = 0) f0 hv0 (fdtBytes (if rfc3926 then 1 else 2) id) 192 1
-    (fun h => fdtBytes_ext _ _ (by split <;> omega) (hfdt h).2) (by omega)
+    (fun _ => fdtBytes_ext _ _ (by split <;> omega)) (by omega)
   generalize hf1 : ({ f0 with exts := f0.exts ++ optExt (pkt.toi = 0) (fdtBytes (if rfc3926 then 1 else 2) id) } : LctFields) = f1 at s1 v1 l1
   -- step 2: EXT_CENC
   obtain ⟨s2, v2, l2⟩ := stepOpt ((pkt.toi = 0 ∧ pkt.cenc ≠ 0) ∨ pkt.inbandCenc = true) f1 v1 (cencBytes pkt.cenc) 193 1
@@ -226,7 +228,7 @@ theorem newAlcPkt_layout (oti : Oti) (cci tsi : Nat) (pkt : Pkt) (rfc3926 : Bool
   have e1 : stepFdt f0.encode pkt rfc3926 = .ok f1.encode := by
     rw [← s1]; unfold stepFdt
     by_cases h : pkt.toi = 0
-    · rw [if_pos h, if_pos h, (hfdt h).1]; rfl
+    · rw [if_pos h, if_pos h, hfdt h]; rfl
     · rw [if_neg h, if_neg h]
   have e2 : stepCenc f1.encode pkt = .ok f2.encode := by
     rw [← s2]; rfl
@@ -315,10 +317,12 @@ end Flute.Alc
 namespace Flute.Alc
 open Flute Flute.Bytes Flute.Lct Flute.Fti Flute.Spec Flute.Ntp
 
-theorem parseExtFdt_fdtBytes (version id : Nat) (hv : version < 16) (hid : id < 2^20) :
-    parseExtFdt (fdtBytes version id) = .ok (some (version, id)) := by
+theorem parseExtFdt_fdtBytes (version id : Nat) (hv : version < 16) :
+    parseExtFdt (fdtBytes version id) = .ok (some (version, id % 2^20)) := by
+  have hid : id % 2^20 < 2^20 := Nat.mod_lt _ (by decide)
   unfold fdtBytes parseExtFdt
-  rewrite [fdt_word version id hv hid, length_beBytes, if_neg (by omega), beVal_beBytes]
+  rewrite [fdt_word version _ hv hid, length_beBytes, if_neg (by omega), beVal_beBytes]
+  generalize id % 2^20 = id at hid
   simp only [Nat.reducePow] at hid ⊢
   simp only [Out.ok.injEq, Option.some.injEq, Prod.mk.injEq]
   constructor <;> omega
@@ -361,7 +365,7 @@ def expectedPkt (oti : Oti) (cci tsi : Nat) (pkt : Pkt) (rfc3926 : Bool) (ntp id
     oti := if pkt.toi = 0 ∨ oti.inbandFti = true then some o' else none,
     transferLength := if pkt.toi = 0 ∨ oti.inbandFti = true then some pkt.transferLength else none,
     cenc := if (pkt.toi = 0 ∧ pkt.cenc ≠ 0) ∨ pkt.inbandCenc = true then some pkt.cenc else none,
-    fdtInfo := if pkt.toi = 0 then some (if rfc3926 then 1 else 2, id) else none,
+    fdtInfo := if pkt.toi = 0 then some (if rfc3926 then 1 else 2, id % 2^20) else none,
     alcHeaderOffset := 4 * f.hdrLen,
     payloadOffset := payloadIdLen oti.fecId + 4 * f.hdrLen }
 
@@ -390,7 +394,7 @@ theorem parseAlcPkt_pktHeader (oti : Oti) (cci tsi : Nat) (pkt : Pkt) (rfc3926 :
     (wfti : List Nat) (nfti : Nat) (o' : Oti) (wpid : List Nat)
     (hv : (pktHeader oti cci tsi pkt rfc3926 ntp id wfti).Valid)
     (hk : knownFec oti.fecId = true)
-    (hid : pkt.toi = 0 → id < 2^20) (hcenc : pkt.cenc ≤ 3)
+    (hcenc : pkt.cenc ≤ 3)
     (hfti : (pkt.toi = 0 ∨ oti.inbandFti = true) → FtiOk oti pkt.transferLength wfti nfti o')
     (hwpid : wpid.length = payloadIdLen oti.fecId) :
     parseAlcPkt ((pktHeader oti cci tsi pkt rfc3926 ntp id wfti).encode ++ (wpid ++ pkt.payload)) =
@@ -405,7 +409,7 @@ theorem parseAlcPkt_pktHeader (oti : Oti) (cci tsi : Nat) (pkt : Pkt) (rfc3926 :
   obtain ⟨x192, x193, _, x64⟩ := findExt_pkt (pkt.toi = 0) ((pkt.toi = 0 ∧ pkt.cenc ≠ 0) ∨ pkt.inbandCenc = true)
     (pkt.senderCurrentTime = true) (pkt.toi = 0 ∨ oti.inbandFti = true)
     (fdtBytes (if rfc3926 then 1 else 2) id) (cencBytes pkt.cenc) (sctBytes ntp) wfti 1 1 3 nfti
-    (fun h => fdtBytes_ext _ _ hver (hid h)) (fun _ => cencBytes_ext _ (by omega)) (fun _ => sctBytes_ext _)
+    (fun _ => fdtBytes_ext _ _ hver) (fun _ => cencBytes_ext _ (by omega)) (fun _ => sctBytes_ext _)
     (fun h => (hfti h).ext)
   rw [← hE] at x192 x193 x64
   have g192 := getExt_encode f hv (wpid ++ pkt.payload) 192
@@ -433,12 +437,12 @@ theorem parseAlcPkt_pktHeader (oti : Oti) (cci tsi : Nat) (pkt : Pkt) (rfc3926 :
     · simp only [if_pos h, cencOf]; rw [parseCenc_cencBytes _ hcenc]
     · simp only [if_neg h, cencOf]
   -- EXT_FDT
-  have F3 : fdtInfoOf d (parsedOf f) = .ok (if pkt.toi = 0 then some (if rfc3926 = true then 1 else 2, id) else none) := by
+  have F3 : fdtInfoOf d (parsedOf f) = .ok (if pkt.toi = 0 then some (if rfc3926 = true then 1 else 2, id % 2^20) else none) := by
     unfold fdtInfoOf
     rw [htoi]
     by_cases h : pkt.toi = 0
     · rw [if_pos h, show EXT_FDT = 192 from rfl, g192, Out.bind_ok, if_pos h, if_pos h]
-      exact parseExtFdt_fdtBytes _ _ hver (hid h)
+      exact parseExtFdt_fdtBytes _ _ hver
     · rw [if_neg h, if_neg h]
   unfold parseAlcPkt
   rw [← hd, parseLctHeader_encode f hv (wpid ++ pkt.payload), Out.bind_ok, hd, hcp]
@@ -462,7 +466,7 @@ open Flute Flute.Bytes Flute.Lct Flute.Fti Flute.Spec Flute.Ntp
 theorem getSenderCurrentTime_pktHeader (oti : Oti) (cci tsi : Nat) (pkt : Pkt) (rfc3926 : Bool) (ntp id : Nat)
     (wfti : List Nat) (nfti : Nat) (o' : Oti) (rest : List Nat)
     (hv : (pktHeader oti cci tsi pkt rfc3926 ntp id wfti).Valid)
-    (hid : pkt.toi = 0 → id < 2^20) (hcenc : pkt.cenc ≤ 3)
+    (hcenc : pkt.cenc ≤ 3)
     (hfti : (pkt.toi = 0 ∨ oti.inbandFti = true) → FtiOk oti pkt.transferLength wfti nfti o')
     (hntp : ntp < 2^64) :
     getSenderCurrentTime ((pktHeader oti cci tsi pkt rfc3926 ntp id wfti).encode ++ rest)
@@ -478,7 +482,7 @@ theorem getSenderCurrentTime_pktHeader (oti : Oti) (cci tsi : Nat) (pkt : Pkt) (
   obtain ⟨_, _, x2, _⟩ := findExt_pkt (pkt.toi = 0) ((pkt.toi = 0 ∧ pkt.cenc ≠ 0) ∨ pkt.inbandCenc = true)
     (pkt.senderCurrentTime = true) (pkt.toi = 0 ∨ oti.inbandFti = true)
     (fdtBytes (if rfc3926 then 1 else 2) id) (cencBytes pkt.cenc) (sctBytes ntp) wfti 1 1 3 nfti
-    (fun h => fdtBytes_ext _ _ hver (hid h)) (fun _ => cencBytes_ext _ (by omega)) (fun _ => sctBytes_ext _)
+    (fun _ => fdtBytes_ext _ _ hver) (fun _ => cencBytes_ext _ (by omega)) (fun _ => sctBytes_ext _)
     (fun h => (hfti h).ext)
   rw [← hE] at x2
   have g2 := getExt_encode f hv rest 2
